@@ -658,12 +658,22 @@ fn mutate_bytes(rng: &mut Xs, b: &[u8]) -> Vec<u8> {
 fn mutate_text(rng: &mut Xs, t: &str, words: &[&str]) -> String {
     let cs: Vec<char> = t.chars().collect();
     let mut v = cs.clone();
-    match rng.below(6) {
+    match rng.below(7) {
         0 => { v.truncate(rng.below(v.len() + 1)); }
         1 => { if !v.is_empty() { let i = rng.below(v.len()); v.remove(i); } }
         2 => { if !v.is_empty() { let i = rng.below(v.len()); let c = v[i]; v.insert(i, c); } }
         3 => { let i = rng.below(v.len() + 1); let w: Vec<char> = words[rng.below(words.len())].chars().collect(); for (k, c) in w.into_iter().enumerate() { v.insert(i + k, c); } }
         4 => { if !v.is_empty() { let i = rng.below(v.len()); v[i] = ['(', ')', '[', ']', '{', '}', '"', '\\', '#', '0', '\u{0}', 'é', ' '][rng.below(13)]; } }
+        5 => { // numbers: duplicate or add a sign, or replace a literal by a boundary value
+            let s: String = v.iter().collect();
+            let pos: Vec<usize> = s.char_indices().filter(|(i, c)| c.is_ascii_digit() && (*i == 0 || !s.as_bytes()[*i - 1].is_ascii_alphanumeric())).map(|(i, _)| i).collect();
+            if !pos.is_empty() {
+                let i = pos[rng.below(pos.len())];
+                let end = s[i..].find(|c: char| !(c.is_ascii_alphanumeric() || c == '_')).map(|k| i + k).unwrap_or(s.len());
+                let repl = ["+-", "--", "-+", "+", "256", "0x100", "1_000", "-1", "18446744073709551616", "340282366920938463463374607431768211456", "0x", "1e9", "00", "9223372036854775808"][rng.below(14)];
+                return if repl.ends_with('-') || repl.ends_with('+') { format!("{}{}{}", &s[..i], repl, &s[i..]) } else { format!("{}{}{}", &s[..i], repl, &s[end..]) };
+            }
+        }
         _ => { // replace one identifier-like token by another word
             let s: String = v.iter().collect();
             let toks: Vec<&str> = s.split(|c: char| !(c.is_alphanumeric() || c == '_')).filter(|x| x.len() > 2).collect();
@@ -674,7 +684,7 @@ fn mutate_text(rng: &mut Xs, t: &str, words: &[&str]) -> String {
 }
 fn mutate_json(rng: &mut Xs, j: &serde_json::Value, depth: usize) -> serde_json::Value {
     use serde_json::Value as J;
-    let junk = |rng: &mut Xs| -> J { [J::Null, J::Bool(true), serde_json::json!(0), serde_json::json!(-1), serde_json::json!(""), serde_json::json!("zz"), serde_json::json!([]), serde_json::json!({}), serde_json::json!({"$ref": "#/definitions/Nope"}), serde_json::json!(18446744073709551615u64)][rng.below(10)].clone() };
+    let junk = |rng: &mut Xs| -> J { [J::Null, J::Bool(true), serde_json::json!(0), serde_json::json!(-1), serde_json::json!(""), serde_json::json!("zz"), serde_json::json!([]), serde_json::json!({}), serde_json::json!({"$ref": "#/definitions/Nope"}), serde_json::json!(18446744073709551615u64), serde_json::json!({"$ref": "#"}), serde_json::json!({"$ref": ""}), serde_json::json!({"$ref": "ByteArray"}), serde_json::json!({"$ref": "#/definitions"})][rng.below(14)].clone() };
     match j {
         J::Object(m) if !m.is_empty() && depth < 12 => {
             let keys: Vec<String> = m.keys().cloned().collect();
@@ -698,6 +708,7 @@ fn mutate_json(rng: &mut Xs, j: &serde_json::Value, depth: usize) -> serde_json:
             }
             J::Array(a2)
         }
+        J::String(t) if rng.below(2) == 0 => { let cs: Vec<char> = t.chars().collect(); J::String(cs[..rng.below(cs.len() + 1)].iter().collect()) }
         _ => junk(rng),
     }
 }
@@ -744,6 +755,7 @@ fn mode_malformed(seed: u64, limit: usize) -> Vec<serde_json::Value> {
     for f in ["lib/alpha.ak", "lib/beta.ak", "validators/one.ak"] {
         if let Ok(t) = std::fs::read_to_string(std::path::Path::new(env!("CARGO_MANIFEST_DIR")).join("fixtures").join("histories").join(f)) { aiken_srcs.push(t); }
     }
+    aiken_srcs.push("pub const bytes = #[1, 2, 255]\n\npub const hex = #\"00ff\"\n\npub const text = @\"héllo\"\n\npub fn f(x: Int) -> Int {\n  when x is {\n    0 -> 1_000\n    0xff -> -1\n    _ -> x * 2 + 10 / 3\n  }\n}\n\ntest t() {\n  f(0) == 1000 && bytes == #[0x01, 0x02, 0xff]\n}\n".to_string());
     for src in &aiken_srcs {
         for _ in 0..150 {
             if fails.len() >= limit { break; }
@@ -764,6 +776,53 @@ fn mode_malformed(seed: u64, limit: usize) -> Vec<serde_json::Value> {
     if let Ok(txt) = std::fs::read_to_string("/repo/examples/gift_card/plutus.json") {
         if let Ok(j) = serde_json::from_str::<serde_json::Value>(&txt) {
             let params = [D::bytestring(vec![1]), D::integer(BigInt::from(1)), D::constr(0, vec![D::bytestring(vec![2]), D::integer(BigInt::from(0))]), D::constr(0, vec![]), D::list(vec![])];
+            // every string member in turn: emptied, cut to 1 / 9 / 13 characters, replaced by a foreign string
+            fn string_paths(j: &serde_json::Value, path: &mut Vec<String>, out: &mut Vec<Vec<String>>) {
+                match j {
+                    serde_json::Value::Object(m) => for (k, v) in m { path.push(k.clone()); string_paths(v, path, out); path.pop(); },
+                    serde_json::Value::Array(a) => for (i, v) in a.iter().enumerate() { path.push(i.to_string()); string_paths(v, path, out); path.pop(); },
+                    serde_json::Value::String(_) => out.push(path.clone()),
+                    _ => {}
+                }
+            }
+            fn set_at(j: &mut serde_json::Value, path: &[String], v: serde_json::Value) {
+                if path.is_empty() { *j = v; return; }
+                match j {
+                    serde_json::Value::Object(m) => if let Some(x) = m.get_mut(&path[0]) { set_at(x, &path[1..], v) },
+                    serde_json::Value::Array(a) => if let Some(x) = path[0].parse::<usize>().ok().and_then(|i| a.get_mut(i)) { set_at(x, &path[1..], v) },
+                    _ => {}
+                }
+            }
+            let mut paths = vec![];
+            string_paths(&j, &mut vec![], &mut paths);
+            let mut sweep: Vec<String> = vec![];
+            for (k, pth) in paths.iter().enumerate() {
+                // all `$ref`s, titles, hashes and code of the first validators; a sample of the rest
+                if !(pth.last().map(|x| x == "$ref").unwrap_or(false) || k % 7 == 0) { continue; }
+                let orig = { let mut cur = &j; for seg in pth { cur = match cur { serde_json::Value::Object(m) => &m[seg], serde_json::Value::Array(a) => &a[seg.parse::<usize>().unwrap_or(0)], _ => cur }; } cur.as_str().unwrap_or("").to_string() };
+                for cut in [0usize, 1, 9, 13] {
+                    let mut j2 = j.clone();
+                    set_at(&mut j2, pth, serde_json::Value::String(orig.chars().take(cut).collect()));
+                    sweep.push(j2.to_string());
+                }
+                let mut j2 = j.clone();
+                set_at(&mut j2, pth, serde_json::Value::String("zz".into()));
+                sweep.push(j2.to_string());
+                if sweep.len() > 900 { break; }
+            }
+            for text in &sweep {
+                if fails.len() >= limit { break; }
+                n += 1;
+                let r = guarded(|| {
+                    if let Ok(mut bp) = serde_json::from_str::<Blueprint>(text) {
+                        for p in &params { let _ = bp.apply_parameter(Some("oneshot"), Some("gift_card"), p); let _ = bp.apply_parameter(None, None, p); }
+                        let _ = serde_json::to_string(&bp);
+                    }
+                });
+                if let Err(p) = r {
+                    fails.push(fail("malformed", "blueprint loading / parameter application panicked", serde_json::json!({"blueprint_json": text.chars().take(1500).collect::<String>()}), "a blueprint or an error".into(), format!("panic: {p}")));
+                }
+            }
             for _ in 0..600 {
                 if fails.len() >= limit { break; }
                 n += 1;
@@ -786,7 +845,7 @@ fn mode_malformed(seed: u64, limit: usize) -> Vec<serde_json::Value> {
             }
         }
     }
-    println!("BOUNDS mode=malformed {n} inputs, seed {seed}: single and double mutations (truncate, delete, duplicate, splice keywords, flip bits/bytes, drop or retype JSON members) of 4 UPLC programs (text, flat, CBOR, hex; three binder forms), 3 Aiken modules (lexer, parser, formatter) and the gift_card blueprint (load, apply_parameter, save); nesting depth as in the originals (no deep-recursion inputs)");
+    println!("BOUNDS mode=malformed {n} inputs, seed {seed}: single and double mutations (truncate, delete, duplicate, splice keywords, flip bits/bytes, drop or retype JSON members, numbers replaced by boundary literals and doubled signs, every `$ref` and a sample of the other strings cut short) of 4 UPLC programs (text, flat, CBOR, hex; three binder forms), 4 Aiken modules (lexer, parser, formatter) and the gift_card blueprint (load, apply_parameter, save); nesting depth as in the originals (no deep-recursion inputs)");
     fails
 }
 fn hexs_of(b: &[u8]) -> String { b.iter().map(|x| format!("{x:02x}")).collect() }
@@ -804,6 +863,7 @@ fn main() {
             "applyparam" => mode_applyparam(seed, limit),
             "determinism" => mode_determinism(seed, limit),
             "malformed" => mode_malformed(seed, limit),
+            "applyparam_np" => mode_applyparam(seed, 100_000).into_iter().filter(|f| f["what"].as_str().unwrap_or("").contains("panicked")).take(limit).collect(),
             _ => {
                 eprintln!("unknown mode {mode}");
                 std::process::exit(2)
@@ -860,6 +920,7 @@ fn run_mode_all(mode: &str) -> Vec<serde_json::Value> {
         "applyparam" => mode_applyparam(0, 100_000),
         "determinism" => mode_determinism(0, 100_000),
         "malformed" => mode_malformed(0, 100_000),
+        "applyparam_np" => mode_applyparam(0, 100_000).into_iter().filter(|f| f["what"].as_str().unwrap_or("").contains("panicked")).collect(),
         _ => vec![],
     }
 }
